@@ -73,6 +73,19 @@ func toModel(e ast.Expr) (*em.Node, error) {
 				}
 			}
 			return nil, fmt.Errorf("unexpected call shape")
+		case *ast.TupleStructLiteral:
+			var parts []string
+			for _, v := range x.Values {
+				k, err := conv(v)
+				if err != nil {
+					return nil, err
+				}
+				if k.Form != nil || k.Paren {
+					return nil, fmt.Errorf("unexpected tuple element")
+				}
+				parts = append(parts, k.Atom)
+			}
+			return &em.Node{Atom: "( " + strings.Join(parts, " , ") + " )"}, nil
 		case *ast.Path:
 			n := &em.Node{Atom: x.Idents[0].Name}
 			for range x.Idents[1:] {
@@ -332,10 +345,13 @@ func oracleC07(ctx *harness.Ctx, cs *harness.Case) (ds []harness.Discrepancy) {
 	return
 }
 
+// c07Atoms: the model's atoms plus tuple struct literals (used by the long-chain leg only; the enumerator keeps em.Atoms).
+var c07Atoms = append(append([]string{}, em.Atoms...), "( a , b )", "( 1 , ( b , c ) )")
+
 // writeModel / readModel serialise a tree as a prefix expression over form indices.
 func writeModel(n *em.Node) string {
 	if n.Form == nil {
-		return "a" + fmt.Sprint(indexOf(em.Atoms, n.Atom))
+		return "a" + fmt.Sprint(indexOf(c07Atoms, n.Atom))
 	}
 	var parts []string
 	for i := range em.Forms {
@@ -371,10 +387,10 @@ func readModel(s string) *em.Node {
 		if strings.HasPrefix(t, "a") {
 			var i int
 			fmt.Sscanf(t[1:], "%d", &i)
-			if i < 0 || i >= len(em.Atoms) {
+			if i < 0 || i >= len(c07Atoms) {
 				return nil
 			}
-			return &em.Node{Atom: em.Atoms[i]}
+			return &em.Node{Atom: c07Atoms[i]}
 		}
 		if t != "(" || pos >= len(toks) {
 			return nil
@@ -476,6 +492,83 @@ func runC07(ctx *harness.Ctx) {
 			}
 		}
 		ctx.Exhaustive("all ordered pairs of comparison-family forms as an unparenthesised chain x 5 contexts", true)
+	})
+	// long chains: 100-400 operands at one precedence level (left-deep, right-deep or balanced), the shapes that
+	// exercise associativity beyond what small trees show (operand counts around 128 / 256, hundreds of tuple operands,
+	// hundreds of nested parentheses).
+	var binForms []*em.Form
+	for i := range em.Forms {
+		if em.Forms[i].Kind == "bin" {
+			binForms = append(binForms, &em.Forms[i])
+		}
+	}
+	ctx.Rapid("long-chains", ctx.Pick(120, 2500), func(t *rapid.T) {
+		lv := rapid.SampledFrom([]int{3, 4, 5, 6, 7, 8, 9, 11, 11, 12, 12}).Draw(t, "level")
+		var level []*em.Form
+		for _, g := range binForms {
+			if g.Level == lv {
+				level = append(level, g)
+			}
+		}
+		f := level[rapid.IntRange(0, len(level)-1).Draw(t, "form")]
+		n := rapid.SampledFrom([]int{100, 127, 128, 129, 130, 200, 255, 256, 257, 258, 300, 400}).Draw(t, "operands")
+		if rapid.IntRange(0, 3).Draw(t, "free-n") == 0 {
+			n = rapid.IntRange(60, 420).Draw(t, "n")
+		}
+		atomMode := rapid.SampledFrom([]string{"mixed", "mixed", "tuples", "plain"}).Draw(t, "atoms")
+		atom := func() *em.Node {
+			switch atomMode {
+			case "tuples":
+				return &em.Node{Atom: c07Atoms[len(em.Atoms)+rapid.IntRange(0, 1).Draw(t, "tuple")]}
+			case "plain":
+				return &em.Node{Atom: em.Atoms[rapid.IntRange(0, len(em.Atoms)-1).Draw(t, "atom")]}
+			}
+			return &em.Node{Atom: rapid.SampledFrom(c07Atoms).Draw(t, "atom")}
+		}
+		op := func() *em.Form {
+			if rapid.IntRange(0, 3).Draw(t, "same-op") > 0 {
+				return f
+			}
+			return level[rapid.IntRange(0, len(level)-1).Draw(t, "op")]
+		}
+		shape := rapid.SampledFrom([]string{"left", "left", "left", "right", "balanced"}).Draw(t, "shape")
+		var build func(k int) *em.Node
+		build = func(k int) *em.Node {
+			if k <= 1 {
+				return atom()
+			}
+			switch shape {
+			case "right":
+				return &em.Node{Form: op(), Kids: []*em.Node{atom(), build(k - 1)}}
+			case "balanced":
+				return &em.Node{Form: op(), Kids: []*em.Node{build(k / 2), build(k - k/2)}}
+			}
+			return nil
+		}
+		var tree *em.Node
+		if shape == "left" {
+			tree = atom()
+			for i := 1; i < n; i++ {
+				tree = &em.Node{Form: op(), Kids: []*em.Node{tree, atom()}}
+			}
+		} else {
+			tree = build(n)
+		}
+		if rapid.IntRange(0, 2).Draw(t, "tail") == 0 {
+			// something after the chain: a parenthesised operand of a looser / the same level
+			g := binForms[rapid.IntRange(0, len(binForms)-1).Draw(t, "tail-form")]
+			tree = &em.Node{Form: g, Kids: []*em.Node{tree, {Form: f, Kids: []*em.Node{atom(), atom()}}}}
+		}
+		ctx.Class("long-chains:" + shape)
+		ctx.Class(fmt.Sprintf("long-chains:level-%d", f.Level))
+		ctx.Class("long-chains:atoms-" + atomMode)
+		if n >= 129 {
+			ctx.Class("long-chains:>=129-operands")
+		}
+		if n >= 257 {
+			ctx.Class("long-chains:>=257-operands")
+		}
+		c07Tree(ctx, t, "long-chains", tree)
 	})
 	ctx.Rapid("random-trees", ctx.Pick(4000, 80000), func(t *rapid.T) {
 		var build func(depth int) *em.Node
